@@ -8,6 +8,7 @@
 """
 from __future__ import annotations
 
+import copy
 from typing import Callable, Dict, List, Optional
 
 from ..core import Counter, pmap
@@ -26,8 +27,14 @@ class Ctx:
 
 
 def run_once(ctx: Ctx, prefix: List[int], expect: Optional[list] = None, policy: Optional[prims.Policy] = None) -> world.Execution:
-    pol = policy or prims.ReplayPolicy(prefix)
-    x = world.execute(ctx.setup_factory(), pol, horizon=ctx.horizon, all_visible=ctx.all_visible)
+    for _ in range(5):
+        polled = len(prims.POLLED)
+        pol = copy.deepcopy(policy) if policy is not None else prims.ReplayPolicy(prefix)
+        x = world.execute(ctx.setup_factory(), pol, horizon=ctx.horizon, all_visible=ctx.all_visible)
+        if len(prims.POLLED) == polled:
+            break
+        # a queue was asked without blocking (get_nowait / empty / qsize) for the first time: the single-producer single-consumer
+        # reduction does not hold for it, its puts must be scheduling points from the start of the execution - run again
     if x.status == 'internal':
         raise prims.InternalError(str(x.detail))
     if expect is not None:
@@ -69,6 +76,7 @@ def warm(ctx: Ctx, d: dict):
 def bounded(ctx: Ctx, d: int, workers: int, c: Optional[Counter] = None) -> Counter:
     """All executions with <= d deviations.  Work is split by the first deviation."""
     c = c or Counter()
+    prims.POLLED.clear()         # per scenario: which queues are polled is found out again by the first execution(s)
     x0 = run_once(ctx, [])
     x1 = run_once(ctx, [])
     from .session import outcome_signature
@@ -117,6 +125,7 @@ def bounded(ctx: Ctx, d: int, workers: int, c: Optional[Counter] = None) -> Coun
 def priority(ctx: Ctx, names: List[str], c: Optional[Counter] = None) -> Counter:
     """For each name: the schedule in which that thread is chosen only when no other thread is enabled; plus the round-robin schedule."""
     c = c or Counter()
+    prims.POLLED.clear()
     x = run_once(ctx, [], policy=prims.FairPolicy())
     c.inc('executions')
     c.inc('priority_schedules')
@@ -218,6 +227,7 @@ def cached(ctx: Ctx, workers: int, max_execs_per_worker: Optional[int] = None, c
     """Unbounded state-cached search.  The top of the tree is explored breadth-first in this process until enough open prefixes
     exist; those are then explored depth-first by the worker pool, all workers sharing ONE table of visited states (SharedSeen)."""
     c = c or Counter()
+    prims.POLLED.clear()
     seen = SharedSeen() if workers > 1 else LocalSeen()
     open_prefixes = _dfs(ctx, [[]], seen, c, stop_when_pending=max(1, workers * 8) if workers > 1 else None, max_execs=max_execs_per_worker if workers <= 1 else None)
     if not open_prefixes or workers <= 1:
